@@ -55,7 +55,11 @@ def plan_calls(rng, idl, aliases):
             calls.append(dict(method=m[1], flags=0, **{"in": SG.rand_value(rng, ins, aliases)}, outs=[], error=(e[1], ev)))
         if ins[1]:
             # parameters the dispatcher cannot decode into the method's input struct: a wrong JSON type, null, none at all
-            calls.append(dict(method="@badparams", target=m[1], raw=rng.choice(["5", "5", "[1,2]", "null", "-", "-"]), flags=0, error=None))
+            raws = [rng.choice(["5", "5", "[1,2]", "null", "-", "-"])]
+            if all(ft[0] == "Q" for _, ft in ins[1]):
+                raws = ["5", "[1,2]", "null", "-"]       # a method whose inputs are all optional still has to refuse what it cannot decode
+            for rw in raws:
+                calls.append(dict(method="@badparams", target=m[1], raw=rw, flags=0, error=None))
     calls.append(dict(method="Unimpl", flags=0, **{"in": {}}, outs=[{}], error=None))
     calls.append(dict(method="@unknown", flags=0, error=None))
     rng.shuffle(calls)
